@@ -279,7 +279,7 @@ def udpStep (v : Variant) (c : UdpCase) (s : UdpSt) (t : Bool) : UdpSt :=
     if s.dec.done then s
     else if s.dec.pending.isEmpty && c.ttail == .hold && !s.cwT && decide (s.dec.buf.length < refill) then s
     else
-      let d := decIter v (c.ttail == .err) c.tfused s.dec
+      let d := decIter v (c.ttail == .err) (c.tfused && c.ttail != .hold) s.dec
       { s with dec := d, udpClosed := s.udpClosed || (d.done && v == .repaired) }
 
 def udpRun (v : Variant) (c : UdpCase) (σ : List Bool) : UdpSt := σ.foldl (udpStep v c) (udpInit c)
